@@ -20,7 +20,8 @@ def handlers : List (String × (String → Json → Except String Json)) := [
   ("c02", Aeic.Builder.handleC02),
   ("c17", Aeic.Builder.handleC17),
   ("c06", Aeic.PerfTable.handle),
-  ("kern", Aeic.Kern.handle)
+  ("kern", Aeic.Kern.handle),
+  ("add", Aeic.AddProg.handle)
 ]
 
 def dispatch (op : String) (j : Json) : Except String Json :=
